@@ -1,7 +1,6 @@
-"""Registry of the per-property pipelines run by ./check (see DESIGN.md)."""
+"""C01 pipeline (see DESIGN.md section 3, C01)."""
 
-PROPS = {
-    "C01": dict(
+PROP = dict(
         models=[
             dict(module="VHost", cfg=dict(quick="VHost_quick.cfg", thorough="VHost_thorough.cfg"), workers=8,
                  timeout=dict(quick=300, thorough=1800)),
@@ -15,7 +14,4 @@ PROPS = {
         level_note="Trusted: TLC, the bounded alphabets of VHost.tla (hosts of <=4 labels, 5 path prefixes), Go's net/http server for HTTP/1.1 framing. HTTP/2 (421) is not exercised.",
         assumptions=["HTTP/1.1 over loopback; the abstract host/path alphabets of VHost.tla",
                      "TLC shows the stepwise model of vhostTrie.Match equal to the declarative BestSite on the bounded alphabets; the replay compares the real server with BestSite"],
-    ),
-}
-
-NOT_APPLICABLE = {}
+    )
